@@ -381,6 +381,8 @@ pub enum Mp4WriterError {
     AudioNotEnabled,
     /// Computed sample duration overflowed a `u32`.
     DurationOverflow,
+    /// A parameter set of the first keyframe does not fit its 16-bit length field.
+    ParameterSetTooLarge,
     /// The writer has already been finalised.
     AlreadyFinalized,
 }
@@ -406,6 +408,9 @@ impl fmt::Display for Mp4WriterError {
             Mp4WriterError::InvalidOpusPacket => write!(f, "invalid Opus packet"),
             Mp4WriterError::AudioNotEnabled => write!(f, "audio track not enabled"),
             Mp4WriterError::DurationOverflow => write!(f, "sample duration overflow"),
+            Mp4WriterError::ParameterSetTooLarge => {
+                write!(f, "parameter set larger than 65535 bytes")
+            }
             Mp4WriterError::AlreadyFinalized => write!(f, "writer already finalised"),
         }
     }
@@ -537,6 +542,17 @@ impl<Writer: Write> Mp4Writer<Writer> {
                     VideoCodec::Vp9 => Mp4WriterError::FirstFrameMissingVp9Config,
                     _ => Mp4WriterError::FirstFrameMissingSpsPps,
                 });
+            }
+            // avcC/hvcC store each parameter set behind a 16-bit length.
+            let oversized = match &config {
+                Some(VideoConfig::Avc(c)) => c.sps.len().max(c.pps.len()) > usize::from(u16::MAX),
+                Some(VideoConfig::Hevc(c)) => {
+                    c.vps.len().max(c.sps.len()).max(c.pps.len()) > usize::from(u16::MAX)
+                }
+                _ => false,
+            };
+            if oversized {
+                return Err(Mp4WriterError::ParameterSetTooLarge);
             }
             self.video_config = config;
         }
